@@ -13,3 +13,5 @@ import JugModel.Props.Memo
 #print axioms Jug.MemoProps.locked_answers_constant
 #print axioms Jug.MemoProps.failed_sticky
 #print axioms Jug.MemoProps.canLoad_truthful
+#print axioms Jug.C15.short_all_complete_iff
+#print axioms Jug.C15.short_all_complete_count
